@@ -205,6 +205,12 @@ class SharedMemoryFileBufferedCollection(FileBufferedCollection):
             if self._filename in type(self)._buffer:
                 # Always track all instances pointing to the same data.
 
+                # Operations that save without loading first (clear, reset) may
+                # be issued through an instance that is not (yet) pointing at the
+                # shared data store; its data is then the new content.
+                if type(self)._buffer[self._filename]["contents"] is not self._data:
+                    type(self)._buffer[self._filename]["contents"] = self._data
+
                 # If all we had to do is set the flag, it could be done without any
                 # check, but we also need to increment the number of modified
                 # items, so we may as well do the update conditionally as well.
